@@ -24,7 +24,7 @@ STEPS = [["html"], ["html", "all_whitespace"], ["html", "inline_whitespace"]]
 
 def documents(rnd, n):
     docs = []
-    shapes = list(itertools.product(range(len(PARTIES)), range(len(CITES)), range(6), range(3)))
+    shapes = list(itertools.product(range(len(PARTIES)), range(len(CITES)), range(6), range(6)))
     rnd.shuffle(shapes)
     for (pi, ci, style, tail) in shapes[:n]:
         p, d = PARTIES[pi]
@@ -39,9 +39,10 @@ def documents(rnd, n):
                  f"{short} at 12 says so, and {o}{short}{c} at 14 too.",
                  f"A court {o}{short.lower()}{c} decline, and it {o}{p.lower()},{c} too.",
                  f"Compare <b>{short}</b> with <span>{o}{short}{c}</span>&amp; others &lt;{p}&gt;."][style]
-        filler = ["The court held that notice was due.", "Id. at 5.", f"2 F.2d 2 ({year + 1}).", f"See {o}Other v. Party{c}, 3 F. Supp. 2d 100 (2000)."][tail]
+        filler = ["The court held that notice was due.", "Id. at 5.", f"2 F.2d 2 ({year + 1}).", f"See {o}Other v. Party{c}, 3 F. Supp. 2d 100 (2000).",
+                  "Dun &amp; Bradstreet said &quot;no&quot;&nbsp;&mdash; twice.", "A &lt;b&gt; tag &amp; more &#167; 5."][tail]
         body = [f"<p>{head} {filler}</p>\n<p>{later}</p>", f"<div>{head}\n\n  {later} {filler}</div>",
-                f"<p>{filler} {head} {later}</p>"][tail % 3]
+                f"<p>{filler} {head} {later}</p>"][(tail + style) % 3]
         docs.append(body)
     return docs
 
@@ -53,7 +54,7 @@ def main(pid):
     r = run_tlc("MC_Markup", "MC_Markup.cfg", timeout=900)
     tlc_must_pass(r, "MC_Markup")
     ev.add_tlc("MC_Markup", r, "MaxToks=6")
-    docs = documents(rnd, 10000 if thorough else 810)
+    docs = documents(rnd, 10000 if thorough else 1620)
     items = [{"markup": d, "steps": s} for d in docs for s in STEPS]
     obs = vlib.impl_map("drv_extract", "run_markup", items)
     fails, _ = tlc_judge("Trace_Markup", "Trace_Markup.cfg", obs, ev, "markup", chunk=4000)
